@@ -203,7 +203,12 @@ static void on_signal(int sig)
 }
 
 /* ------------------------------------------------------------------ dispatch */
+#ifdef KERN_ONLY
+extern const op_t ops_kern[];
+static const op_t *tables[] = { ops_kern, NULL };
+#else
 static const op_t *tables[] = { ops_basic, ops_mul, ops_div, ops_bit, ops_alias, ops_conv, ops_q, ops_hist, ops_radix, ops_gcd, ops_pow, ops_root, ops_f, ops_comb, ops_io, ops_printf, ops_printf2, ops_rand, NULL };
+#endif
 
 static op_fn lookup(const char *name)
 {
